@@ -6,7 +6,8 @@
      satisfy `wf_model` / `fits`; the events the REAL handlers delivered for the REAL writers'
      output (indentation, user prefix map, both backends) read as the expected tree and are
      parsed back to the instance;
-   * the nillable clause: xsi:nil conflation (known finding C01-F1). *)
+   * the nillable clause: xsi:nil conflation (known finding C01-F1);
+   * the clause `seq_member` (no token list inside a sequence group): known finding C01-F7. *)
 From Coq Require Import NArith ZArith List Bool.
 From XV Require Import Base.Str Base.Eqb Base.PyInt Spec.XmlNs Model.Bind Model.WriterBridge Spec.Fits Model.RoundtripCorr
   Model.ConvInt Model.ConvBool Proofs.ConvInt Proofs.ConvBool Proofs.RoundtripWitness.
@@ -109,4 +110,38 @@ Theorem nil_conflation_refuted :
   /\ composition_nil = Parser.Ok (VObj root_nil [([98], VNone)]) []
   /\ Parser.parse cfg_strict conv_c05 u_nil (Some root_nil) pevs_nil = Parser.Ok (VObj root_nil [([98], VNone)]) []
   /\ ParserCorr.outcome_eqb composition_nil (Parser.Ok o_nil []) = false.
+Proof. repeat split; vm_compute; reflexivity. Qed.
+
+(* ---------------------------------------------------------------- token lists inside a sequence group *)
+(* the metadata with every `sequence` number removed *)
+Definition clear_seq_var (v : xvar) : xvar :=
+  mk_xvar (v_index v) (v_name v) (v_local_name v) (v_qname v) (v_wrapper_qname v) (v_kind v) (v_types v)
+          (v_clazz v) (v_init v) (v_mixed v) (v_factory v) (v_tokens_factory v) (v_format v) (v_any_type v)
+          (v_process_contents v) (v_required v) (v_nillable v) None (v_default v) (v_namespaces v)
+          (v_elements v) (v_wildcards v).
+Definition clear_seq_meta (m : xmeta) : xmeta :=
+  mk_xmeta (m_clazz m) (m_qname m) (m_target_qname m) (m_nillable m)
+           (m_text m) (m_choices m)
+           (map (fun e => (fst e, map clear_seq_var (snd e))) (m_elements m))
+           (m_wildcards m) (m_attributes m)
+           (m_any_attributes m) (m_wrappers m) (m_namespace m) (m_mixed_content m).
+Definition clear_seq (u : universe) : universe :=
+  mk_universe (map (fun e => (fst e, clear_seq_meta (snd e))) (u_metas u)) (u_mro u) (u_bases u) (u_xsi u) (u_enums u) (u_names u).
+
+Definition composition_seqtok : Parser.outcome :=
+  Parser.parse cfg_strict conv_c05 u_seqtok (Some root_seqtok)
+    (pump (expected_of conv_c05 (EventGen.generate false conv_c05 u_seqtok o_seqtok))).
+
+(* S(x=['ab','cd'], y='q'), x a token list, x and y in one sequence group: next_value yields the
+   tokens of x one by one, interleaved with y; the parser meets a second <x> for a field that is not
+   a list.  The round trip fails in the faithful models (composition) and on the events the real
+   handler delivered for the real writer's output; the only guard clause the case violates is
+   seq_member (without the sequence numbers the metadata and the instance are inside the guards) *)
+Theorem sequence_tokens_refuted :
+  wf_model u_seqtok root_seqtok = false
+  /\ wf_model (clear_seq u_seqtok) root_seqtok = true
+  /\ fits conv_c05 (clear_seq u_seqtok) ok_c05 py_isspace 1 root_seqtok o_seqtok = true
+  /\ ParserCorr.outcome_eqb composition_seqtok (Parser.Ok o_seqtok []) = false
+  /\ ParserCorr.outcome_eqb (Parser.parse cfg_strict conv_c05 u_seqtok (Some root_seqtok) pevs_seqtok) (Parser.Ok o_seqtok []) = false
+  /\ ParserCorr.outcome_eqb composition_seqtok (Parser.parse cfg_strict conv_c05 u_seqtok (Some root_seqtok) pevs_seqtok) = true.
 Proof. repeat split; vm_compute; reflexivity. Qed.
